@@ -2,6 +2,8 @@ import CalVerif.Lemmas.PtgXlsb
 import CalVerif.Lemmas.PtgPanics
 import CalVerif.Lemmas.PtgSpecEnv
 import CalVerif.Lemmas.XlsxFormula
+import CalVerif.Lemmas.XlsbFormula
+import CalVerif.Props.C05
 /-! # C14 — formulas are reported with the A1 text the token stream encodes
 
     Theorems about the model of the two token decoders (`Model/Ptg.lean`: `pushColumn`, `cellRef`,
@@ -319,6 +321,134 @@ example :
   rfl
 
 end Xlsx
+
+/-! ## xlsb: formula cells of a worksheet part (`next_formula`, `formula_rgce`, `worksheet_formula`) -/
+
+section XlsbCells
+open Xlsb XlsbFormula
+
+/-- **no panic** (C06 re-exports): reading the formula cells of ANY byte string as a worksheet part — record
+    framing, `XlsbCellsReader::new`, the four BrtFmla* layouts, the `rgce` slice, the token decoder — returns a
+    cell list or an error -/
+theorem sheetFormulas_no_panic (ctx : Ptg.Ctx) (bs : Xlsb.Bytes) (m : String) : sheetFormulas ctx bs ≠ .panic m :=
+  sheetFormulas_ne_panic ctx bs m
+
+/-- **termination**: with one unit of fuel per byte of the part (plus one) the formula loop never runs out: every
+    iteration consumes a record of at least two bytes -/
+theorem sheetFormulas_total (ctx : Ptg.Ctx) (bs : Xlsb.Bytes) : sheetFormulas ctx bs ≠ .outOfFuel :=
+  sheetFormulas_ne_fuel ctx bs
+
+/-- `Xlsb::worksheet_formula` on arbitrary bytes: never out of fuel, and a panic can only be `Range::from_sparse`'s
+    (hostile coordinates: C05 / C06 known finding), never the reader's -/
+theorem worksheetFormulaXlsb_total (ctx : Ptg.Ctx) (bs : Xlsb.Bytes) :
+    worksheetFormula ctx bs ≠ .outOfFuel ∧
+    ∀ m, worksheetFormula ctx bs = .panic m → ∃ cells, sheetFormulas ctx bs = .ok cells ∧ Range.fromSparse cells = .panic m := by
+  unfold worksheetFormula
+  cases h : sheetFormulas ctx bs with
+  | ok cells => exact ⟨fromSparse_ne_fuel cells, fun m hm => ⟨cells, rfl, hm⟩⟩
+  | err e => exact ⟨by simp, fun m hm => by cases hm⟩
+  | panic s => exact absurd h (sheetFormulas_ne_panic ctx bs s)
+  | outOfFuel => exact absurd h (sheetFormulas_ne_fuel ctx bs)
+
+/-- **formula record layout**: in each of the four formula records (cached string / number / bool / error) written
+    by the encoder, `formula_rgce` cuts out exactly the expression's token bytes — after the Cell structure, the
+    variable-length cached value and `grbitFlags`, ignoring the trailing `rgcb` — and the column is the record's -/
+theorem fmla_record_rgce (col style : Nat) (content : Content) (flags : Nat) (rgce rgcb : Xlsb.Bytes)
+    (hcol : col < 4294967296) (hwf : content.WF) (hf : content.hasFmla = true) (hlen : rgce.length < 4294967296) :
+    let c : CellRec := ⟨col, style, content, some (fmlaBytes flags rgce rgcb)⟩
+    finterpret c.recId c.payload = .cell rgce ∧ u32le c.payload = col ∧ (8 ≤ c.recId ∧ c.recId ≤ 11) :=
+  finterpret_fcell col style content flags rgce rgcb hcol hwf hf hlen
+
+/-- **sheet round trip** (cells): for every described worksheet part — any prologue, sheet data made of row headers,
+    constant cells, ignorable records and formula cells (any of the four cached-value kinds, any flags, any `rgcb`,
+    an expression of the C14 grammar) in any interleaving, every record framed with a 1- or 2-byte id and a
+    1..4-byte length — `worksheet_formula` collects exactly the formula cells whose text is not empty, each at
+    (current row header, record column) with the A1 text of its expression -/
+theorem xlsb_formula_cells_roundtrip (ctx : Ptg.Ctx) (pre1 pre2 : List Seg) (dims : Xlsb.Bytes) (dw : Bool) (dl : Nat)
+    (bp : Xlsb.Bytes) (bw : Bool) (bl : Nat) (data : List FFramed) (ew : Bool) (el : Nat) (post : Xlsb.Bytes)
+    (h1 : ∀ s ∈ pre1, s.OK 0x0094 bounds1) (h2 : ∀ s ∈ pre2, s.OK 0x0091 bounds2)
+    (hd : 16 ≤ dims.length ∧ dims.length < 268435456) (hb : bp.length < 268435456)
+    (hok : ∀ d ∈ data, d.item.OK ctx.sheets.length) :
+    sheetFormulas ctx (sheetBytes pre1 dims dw dl pre2 bp bw bl (data.map FFramed.toFramed) ew el post)
+      = .ok (keptFormulas (envOfXlsb ctx) (data.map (·.item))) :=
+  sheetFormulas_enc ctx pre1 pre2 dims dw dl bp bw bl data ew el post h1 h2 hd hb hok
+
+/-- **sheet round trip** (range): … and the range `worksheet_formula` returns is empty iff there is no such cell,
+    otherwise it is exactly their bounding rectangle (every cell inside, every side touched) and holds at every
+    position the text of the (last) formula cell addressing it and `""` everywhere else; in particular, when no two
+    formula cells share a position, every formula is read back at its cell -/
+theorem xlsb_worksheet_formula_roundtrip (ctx : Ptg.Ctx) (pre1 pre2 : List Seg) (dims : Xlsb.Bytes) (dw : Bool) (dl : Nat)
+    (bp : Xlsb.Bytes) (bw : Bool) (bl : Nat) (data : List FFramed) (ew : Bool) (el : Nat) (post : Xlsb.Bytes)
+    (h1 : ∀ s ∈ pre1, s.OK 0x0094 bounds1) (h2 : ∀ s ∈ pre2, s.OK 0x0091 bounds2)
+    (hd : 16 ≤ dims.length ∧ dims.length < 268435456) (hb : bp.length < 268435456)
+    (hok : ∀ d ∈ data, d.item.OK ctx.sheets.length)
+    (hS : ∀ c ∈ keptFormulas (envOfXlsb ctx) (data.map (·.item)), c.1 < 1048576 ∧ c.2.1 < 16384) :
+    let S := keptFormulas (envOfXlsb ctx) (data.map (·.item))
+    ∃ r, worksheetFormula ctx (sheetBytes pre1 dims dw dl pre2 bp bw bl (data.map FFramed.toFramed) ew el post) = .ok r ∧
+      Range.Inv r ∧ (r.inner.length = 0 ↔ S = []) ∧
+      (∀ c ∈ S, r.sr ≤ c.1 ∧ c.1 ≤ r.er ∧ r.sc ≤ c.2.1 ∧ c.2.1 ≤ r.ec) ∧
+      (S ≠ [] → (∃ c ∈ S, c.1 = r.sr) ∧ (∃ c ∈ S, c.1 = r.er) ∧ (∃ c ∈ S, c.2.1 = r.sc) ∧ (∃ c ∈ S, c.2.1 = r.ec)) ∧
+      (∀ p q, r.valAt p q = (Range.lastAt S p q).getD []) ∧
+      (S.Pairwise (fun a b => ¬ (a.1 = b.1 ∧ a.2.1 = b.2.1)) → ∀ c ∈ S, r.valAt c.1 c.2.1 = c.2.2) ∧
+      (∀ p q, (∀ c ∈ S, ¬ (c.1 = p ∧ c.2.1 = q)) → r.valAt p q = []) := by
+  intro S
+  unfold worksheetFormula
+  rw [sheetFormulas_enc ctx pre1 pre2 dims dw dl bp bw bl data ew el post h1 h2 hd hb hok]
+  simp only
+  change ∀ c ∈ S, c.1 < 1048576 ∧ c.2.1 < 16384 at hS
+  have hpre : Range.sparsePre S :=
+    ⟨fun c hc => by have := hS c hc; unfold Range.U32; omega,
+     fun c hc c' hc' => by have := hS c hc; have := hS c' hc'; unfold Range.U32; omega⟩
+  obtain ⟨r, hr⟩ := Range.fromSparse_of_pre S hpre
+  obtain ⟨hinv, hemp⟩ := Range.inv_fromSparse S r hr
+  have hval : ∀ p q, r.valAt p q = (Range.lastAt S p q).getD [] := by
+    by_cases hne : S = []
+    · intro p q
+      rw [Range.fromSparse_untouched S r hr p q (by rw [hne]; exact fun c hc => nomatch hc), hne]
+      rfl
+    · exact (Range.fromSparse_spec_any S hne r hr).2.2.2.2.2.2
+  refine ⟨r, hr, hinv, hemp, ?_, ?_, hval, ?_, ?_⟩
+  · by_cases hne : S = []
+    · rw [hne]; exact fun c hc => nomatch hc
+    · exact (Range.fromSparse_spec_any S hne r hr).2.1
+  · intro hne
+    obtain ⟨_, _, t1, t2, t3, t4, _⟩ := Range.fromSparse_spec_any S hne r hr
+    exact ⟨t1, t2, t3, t4⟩
+  · intro hdist c hc
+    obtain ⟨l1, l2, hl⟩ := List.append_of_mem hc
+    rw [hval, hl, Range.lastAt_append_cons l1 l2 c]
+    · rfl
+    · intro c' hc' hpos
+      have := List.pairwise_append.mp (hl ▸ hdist)
+      exact (List.pairwise_cons.mp this.2.1).1 c' hc' ⟨hpos.1.symm, hpos.2.symm⟩
+  · intro p q hno
+    rw [hval]
+    have : Range.lastAt S p q = none := by
+      unfold Range.lastAt
+      rw [Option.map_eq_none_iff, List.find?_eq_none]
+      intro c hc
+      simpa using hno c (List.mem_reverse.mp hc)
+    rw [this]; rfl
+
+/-- non-vacuity: row 5, a number cell with `=A1+2` behind a cached 1.5 and a string-cached `=CHOOSE(…)`-free `=B2`
+    are legal items -/
+example :
+    let it1 : FItem := .fcell 3 0 (.real 4609434218613702656) 0 (.bin 3 (.ref 0 ⟨0, 0, false, false⟩) (.int 2)) []
+    let it2 : FItem := .fcell 7 0 (.str [120, 121]) 8 (.ref 1 ⟨1, 1, false, false⟩) [1, 2, 3]
+    it1.OK 0 ∧ it2.OK 0 ∧ (FItem.row 5 []).OK 0 := by
+  intro it1 it2
+  refine ⟨?_, ?_, by simp [FItem.OK]⟩
+  · refine ⟨by decide, by simp [Content.WF], rfl, by simp [Formula.Expr.arityOk], ?_, by simp, by decide⟩
+    intro t ht
+    simp [Formula.toRpn] at ht
+    rcases ht with rfl | rfl | rfl <;> simp [Formula.Tok.wf, Formula.Tok.sheetOk, Formula.CellRef.wf]
+  · refine ⟨by decide, by simp [Content.WF], rfl, by simp [Formula.Expr.arityOk], ?_, by simp, by decide⟩
+    intro t ht
+    simp [Formula.toRpn] at ht
+    subst ht
+    simp [Formula.Tok.wf, Formula.Tok.sheetOk, Formula.CellRef.wf]
+
+end XlsbCells
 
 /-! ## offsets: the stack of string offsets never goes wrong -/
 
